@@ -163,27 +163,71 @@ fn clipd<T: std::fmt::Debug>(v: &T) -> String {
     clip(&format!("{:?}", v))
 }
 
-/// Turn the failed laws of `v` into violations, keeping a law only when `v` is minimal for it
-/// (no one-step reduction of `v` fails the same law). Returns (violations, extra evaluations).
+const GROUP_A: [&str; 3] = ["roundtrip", "cycle_defined", "fixed_point"];
+
+thread_local! {
+    /// canonical value -> bit 0: the value or one of its (transitive) reductions fails a law of
+    /// group A; bit 1: ... fails `no_panic`.
+    static CLOSURE: std::cell::RefCell<std::collections::HashMap<String, u8>> = std::cell::RefCell::new(std::collections::HashMap::new());
+}
+
+fn law_bits(l: &ValueLaws) -> u8 {
+    let mut b = 0;
+    if GROUP_A.iter().any(|g| l.failed.contains_key(g)) {
+        b |= 1;
+    }
+    if l.failed.contains_key("no_panic") {
+        b |= 2;
+    }
+    b
+}
+
+/// Which law groups fail on `v` or on anything reachable from `v` by reductions (memoised).
+fn closure_bits(v: &Value, evals: &mut u64) -> u8 {
+    let k = crate::model::canon(v);
+    if let Some(b) = CLOSURE.with(|c| c.borrow().get(&k).copied()) {
+        return b;
+    }
+    let l = value_laws(v, false);
+    *evals += l.evaluations;
+    let mut b = law_bits(&l);
+    for r in reductions(v) {
+        if b == 3 {
+            break;
+        }
+        b |= closure_bits(&r, evals);
+    }
+    CLOSURE.with(|c| {
+        let mut c = c.borrow_mut();
+        if c.len() > 300_000 {
+            c.clear();
+        }
+        c.insert(k, b);
+    });
+    b
+}
+
+/// Turn the failed laws of `v` into violations, keeping a law only when `v` is minimal for it:
+/// nothing reachable from `v` by reductions fails a law of the same group (`roundtrip`,
+/// `cycle_defined` and `fixed_point` are faces of one printer/parser disagreement and form one
+/// group). Returns (violations, extra evaluations).
 pub fn value_violations(v: &Value, force_producible: bool, laws: &ValueLaws, leg: &str) -> (Vec<Viol>, u64) {
     let mut out = vec![];
     let mut evals = 0;
     if laws.failed.is_empty() {
         return (out, 0);
     }
-    let reds: Vec<ValueLaws> = reductions(v)
-        .iter()
-        .map(|r| {
-            let l = value_laws(r, false);
-            evals += l.evaluations;
-            l
-        })
-        .collect();
+    let mut below = 0u8;
+    let want = law_bits(laws);
+    for r in reductions(v) {
+        if below & want == want {
+            break;
+        }
+        below |= closure_bits(&r, &mut evals);
+    }
     for (law, (printers, got, what)) in &laws.failed {
-        // roundtrip / cycle_defined / fixed_point are faces of one printer-parser disagreement:
-        // a value is reported only if none of its reductions shows any of them
-        let group: &[&str] = if *law == "no_panic" { &["no_panic"] } else { &["roundtrip", "cycle_defined", "fixed_point"] };
-        if reds.iter().any(|l| group.iter().any(|g| l.failed.contains_key(g))) {
+        let bit = if *law == "no_panic" { 2 } else { 1 };
+        if below & bit != 0 {
             continue;
         }
         let sk = skeleton(v);
@@ -198,26 +242,6 @@ pub fn value_violations(v: &Value, force_producible: bool, laws: &ValueLaws, leg
         });
     }
     (out, evals)
-}
-
-/// Greedy minimisation for values outside the enumerated space (deep / long families).
-pub fn shrink_value(v: &Value, law: &'static str, force_producible: bool) -> Value {
-    let mut cur = v.clone();
-    let mut budget = 2000;
-    'outer: loop {
-        for r in reductions(&cur) {
-            budget -= 1;
-            if budget == 0 {
-                break 'outer;
-            }
-            if value_laws(&r, force_producible && false).failed.contains_key(law) {
-                cur = r;
-                continue 'outer;
-            }
-        }
-        break;
-    }
-    cur
 }
 
 // ------------------------------------------------------------------------------- chunking
